@@ -136,6 +136,8 @@ class Ctx(object):
             raise AnalysisError('unrecognised idiom(s): ' + ' | '.join(self.unrecognised[:3]))
 
     def check_floors(self):
+        if self.reports:
+            return      # a violation is a verdict (the reporting rule may have cut other rules short)
         for name, r in sorted(self.rules.items()):
             if r['floor'] is not None and r['instances'] < r['floor'] and not r['reports']:
                 raise AnalysisError('rule %s matched %d instances, fewer than the %d confirmed by hand '
